@@ -28,7 +28,19 @@ def run(ctx):
         rej = [x["block"] for x in exit_sites(f) if x["kind"] == "reject"]
         ctx.check(len(rej) >= 1, "C20.mem.rejects", f.path, "%s: rejecting exits found: %d" % (op, len(rej)), key="C20.mem.rejects|" + op)
         if w and rej:
-            ok = never_after(ctx, f, w, rej, "C20.mem.atomic", "%s: a rejecting exit is reachable after the store was already mutated" % op)
+            exprs = {x["block"]: x["expr"] for x in exit_sites(f)}
+
+            def desc(bb):
+                from engine.mir import walk
+                names = []
+                for n in walk(exprs[bb]):
+                    if n[0] == "agg" and n[2] and n[1] not in ("core::result::Result", "core::option::Option"):
+                        names.append(n[2])
+                    if n[0] == "call" and n[1].startswith("lumina_node::"):
+                        names.append(n[1].split("::")[-1])
+                return "/".join(sorted(set(names))[:3]) or "error"
+
+            ok = never_after(ctx, f, w, rej, "C20.mem.atomic", "%s: a rejecting exit is reachable after the store was already mutated" % op, per_pair=True, b_desc=desc)
     # outer in-memory insert: conversion failure precedes any lock/write; nothing can fail after the inner insert
     o = ctx.anchor(IM + "InMemoryStore::insert")
     if o:
